@@ -178,3 +178,6 @@ func DecodeBlock(b []byte) (rows [][]string, ok bool) {
 	}
 	return rows, off == len(b)
 }
+
+// NewHash returns a meow digest (what wrgl's indexers expect).
+func NewHash() *meow.Digest { return meow.New(0) }
